@@ -2,6 +2,7 @@ CONSTANTS FlawShallowListFreeze = TRUE
  FlawSharedConstants = FALSE
  FlawInPlaceSort = FALSE
  FlawAppendSharesCapacity = TRUE
+ FlawSortedAliasesOrdered = FALSE
  OnlyTargets = {"F"}
  MaxMut = 1
  DeepVias = {"direct", "alias"}
